@@ -121,11 +121,16 @@ def refperm(x, first):
 def bind_reference(katcheck_like_exe=None):
     """cross-check the vectorised reference against the table-S-box C reference (ref/ref.c) on weight <= 1 and dense states"""
     verif = os.path.dirname(os.path.dirname(os.path.abspath(__file__)))
-    exe = os.path.join(verif, "build", "tmp", "refperm_cli")
-    src = os.path.join(verif, "ref", "refperm_cli.c")
-    os.makedirs(os.path.dirname(exe), exist_ok=True)
-    if not os.path.isfile(exe) or os.path.getmtime(exe) < max(os.path.getmtime(src), os.path.getmtime(os.path.join(verif, "ref", "ref.c"))):
-        subprocess.run(["gcc", "-O2", "-o", exe, src, os.path.join(verif, "ref", "ref.c"), "-I" + os.path.join(verif, "ref")], check=True)
+    exe = os.environ.get("EMU_REFPERM")
+    if not exe or not os.path.isfile(exe):
+        # stand-alone use: build into a private temporary and rename atomically (several emulators may start at once)
+        exe = os.path.join(verif, "build", "tmp", "refperm_cli")
+        src = os.path.join(verif, "ref", "refperm_cli.c")
+        os.makedirs(os.path.dirname(exe), exist_ok=True)
+        if not os.path.isfile(exe) or os.path.getmtime(exe) < max(os.path.getmtime(src), os.path.getmtime(os.path.join(verif, "ref", "ref.c"))):
+            tmp = "%s.%d.tmp" % (exe, os.getpid())
+            subprocess.run(["gcc", "-O2", "-o", tmp, src, os.path.join(verif, "ref", "ref.c"), "-I" + os.path.join(verif, "ref")], check=True)
+            os.rename(tmp, exe)
     X = weight_le2(False)[:, :700]
     X = np.concatenate([X, weight_le2(False)[:, -64:]], axis=1)
     lines = []
